@@ -369,3 +369,33 @@ Proof.
   rewrite nth_error_firstn_lt in H1 by auto. rewrite nth_error_firstn_lt in H2 by lia.
   rewrite (Sb k) in H2 by lia. congruence.
 Qed.
+
+(* the leader's commit rule (Raft 5.4.2): the commit index is advanced by counting replicas only
+   to an entry of the leader's CURRENT term acknowledged by a majority; entries of earlier terms
+   commit only transitively beneath it *)
+Lemma commit_scan_spec : forall others maj s k,
+  commit_scan others maj s k = commit s \/
+  (commit s < commit_scan others maj s k /\
+   exists e, nth_error (log s) (N.to_nat (commit_scan others maj s k) - 1) = Some e /\
+             e_term e = term s /\ maj <= acks others (match_index s) (commit_scan others maj s k)).
+Proof.
+  induction k as [|k IH]; cbn [commit_scan]; auto.
+  destruct (N.of_nat (S k) <=? commit s) eqn:E; auto.
+  destruct (nth_error (log s) k) as [e|] eqn:En; auto.
+  destruct ((e_term e =? term s) && (maj <=? acks others (match_index s) (N.of_nat (S k)))) eqn:T; auto.
+  right. apply andb_prop in T. destruct T as [T1 T2]. split; [lia|].
+  exists e. replace (N.to_nat (N.of_nat (S k)) - 1)%nat with k by lia. repeat split; auto; lia.
+Qed.
+
+Theorem leader_commit_rule : forall others maj s,
+  commit (do_commit others maj s) <> commit s ->
+  rrole s = Leader /\ commit s < commit (do_commit others maj s) /\
+  exists e, nth_error (log s) (N.to_nat (commit (do_commit others maj s)) - 1) = Some e /\
+            e_term e = term s /\
+            maj <= acks others (match_index s) (commit (do_commit others maj s)).
+Proof.
+  intros others maj s H. unfold do_commit in *. unfold is_leader in *.
+  destruct (rrole s) eqn:R; cbn [role_eqb] in *; try congruence. cbn [commit set_commit] in *.
+  destruct (commit_scan_spec others maj s (length (log s))) as [E|(L & e & A & B & C)]; [congruence|].
+  split; auto. split; auto. exists e; auto.
+Qed.
